@@ -9,12 +9,14 @@ pub mod c07;
 pub mod c09;
 pub mod c10;
 pub mod c11;
+pub mod c12;
 pub mod c13;
 pub mod c14;
 pub mod c15;
 pub mod c16;
 pub mod c17;
 pub mod c17_cli;
+pub mod c18;
 pub mod c19;
 pub mod c20;
 
@@ -29,11 +31,13 @@ pub fn run(id: &str, e: &Engine) -> bool {
 		"C09" => c09::check(e),
 		"C10" => c10::check(e),
 		"C11" => c11::check(e),
+		"C12" => c12::check(e),
 		"C13" => c13::check(e),
 		"C14" => c14::check(e),
 		"C15" => c15::check(e),
 		"C16" => c16::check(e),
 		"C17" => c17::check(e),
+		"C18" => c18::check(e),
 		"C19" => c19::check(e),
 		"C20" => c20::check(e),
 		_ => return false,
@@ -41,4 +45,4 @@ pub fn run(id: &str, e: &Engine) -> bool {
 	true
 }
 
-pub const ALL: &[&str] = &["C01", "C02", "C03", "C04", "C06", "C07", "C09", "C10", "C11", "C13", "C14", "C15", "C16", "C17", "C19", "C20"];
+pub const ALL: &[&str] = &["C01", "C02", "C03", "C04", "C06", "C07", "C09", "C10", "C11", "C12", "C13", "C14", "C15", "C16", "C17", "C18", "C19", "C20"];
